@@ -23,7 +23,7 @@ Char(c) == [k |-> "char", c |-> c]
 Str(s) == [k |-> "str", s |-> s]
 Sym(s) == [k |-> "sym", s |-> s]
 Kw(s) == [k |-> "kw", s |-> s]
-Bytes(b) == [k |-> "bytes", b |-> b]
+Bytes(b) == [k |-> "bytes", bv |-> b]
 Cons(a, d) == [k |-> "cons", car |-> a, cdr |-> d]
 Vec(es) == [k |-> "vec", e |-> es]
 
@@ -95,7 +95,7 @@ Fold(v, po, ro) ==
             [] po.nil = "null" -> Null
             [] OTHER -> FoldBool(FALSE, po, ro))
     [] v.k = "bool" -> FoldBool(v.b, po, ro)
-    [] v.k = "bytes" -> IF po.bytes = "elisp" /\ v.b = <<>> THEN Str(<<>>) ELSE v
+    [] v.k = "bytes" -> IF po.bytes = "elisp" /\ v.bv = <<>> THEN Str(<<>>) ELSE v
     [] v.k = "cons" -> Cons(Fold(v.car, po, ro), Fold(v.cdr, po, ro))
     [] v.k = "vec" -> Vec([i \in DOMAIN v.e |-> Fold(v.e[i], po, ro)])
     [] OTHER -> v
